@@ -46,7 +46,7 @@ def setup(P):
     sys.modules[MOD] = mod
 
     class Sub(param.Parameterized):
-        x = param.Number(default=0.0)
+        x = param.Number(default=0.0, bounds=(-1e12, 1e12))
         y = param.Number(default=0.0)
         b = param.Parameter(default=None)
         items = param.List(default=[1])
@@ -77,6 +77,14 @@ def setup(P):
         @param.depends('sub.b.y', 'other.x', watch=True)
         def m_deep(self):
             self.__dict__.setdefault('calls', []).append('m_deep')
+
+        @param.depends('sub.x:bounds', watch=True)
+        def m_subslot(self):
+            self.__dict__.setdefault('calls', []).append('m_subslot')
+
+        @param.depends('a:bounds', watch=True)
+        def m_ownslot(self):
+            self.__dict__.setdefault('calls', []).append('m_ownslot')
 
         def on_a(self, *events):
             self.__dict__.setdefault('calls', []).append('on_a')
@@ -250,7 +258,7 @@ def run_case(idx, rng, P, rep):
         s_obj = snapshot(obj)
         obj.__dict__.setdefault('calls', [])
         n_calls = len(obj.calls)
-        kind = rng.choice(['a', 's', 'sub.x', 'sub.y', 'sub.b.y', 'other.x', 'replace-sub', 'mutate', 'meta', 'a', 'sub.x'])
+        kind = rng.choice(['a', 's', 'sub.x', 'sub.y', 'sub.b.y', 'other.x', 'replace-sub', 'mutate', 'meta', 'a', 'sub.x', 'sub.x:bounds'])
         expect = []
         replaced = False
         if kind == 'a':
@@ -264,6 +272,11 @@ def run_case(idx, rng, P, rep):
                 continue
             setattr(obj.sub, kind[-1], tokv())
             expect = ['m_sub']
+        elif kind == 'sub.x:bounds':
+            if not isinstance(obj.sub, param.Parameterized):
+                continue
+            obj.sub.param.x.bounds = (-tokv() - 1e8, 1e12)
+            expect = ['m_subslot']
         elif kind == 'sub.b.y':
             if not (isinstance(obj.sub, param.Parameterized) and isinstance(obj.sub.b, param.Parameterized)):
                 continue
@@ -290,7 +303,7 @@ def run_case(idx, rng, P, rep):
         else:
             obj.param.a.bounds = (-tokv() - 1e8, 1e9)
             obj.param.sel.objects.append('z%d' % int(tokv()))
-            expect = []
+            expect = ['m_ownslot']
         div.append(f'{side}:{kind}')
         rep.count('divergence_ops')
         if snapshot(oth) != s_oth:
@@ -298,7 +311,7 @@ def run_case(idx, rng, P, rep):
             viol(f'not-independent/{"calls" if diff == [("attr", "calls")] else diff[0][0]}', f'{mech}: {kind} on the {side} changed the other '
                  f'object: {diff}')
         got = obj.calls[n_calls:]
-        if replaced and (got.count('m_sub') != 1 or got.count('m_deep') > 1 or set(got) - {'m_sub', 'm_deep'}):
+        if replaced and (got.count('m_sub') != 1 or got.count('m_deep') > 1 or got.count('m_subslot') > 1 or set(got) - {'m_sub', 'm_deep', 'm_subslot'}):
             viol(f'dependency-not-working-on-{side}/{kind}', f'{mech}: after {kind} on the {side} its dependent methods ran {got}, expected m_sub once '
                  f'and m_deep at most once')
         if expect is not None and sorted(got) != sorted(expect):
